@@ -423,34 +423,96 @@ Proof.
   destruct (has_nq mode), (has_q mode); rewrite ?Hnq, ?Hq; cbn [bind app]; rewrite ?map_app, ?concat_app, ?app_nil_r; reflexivity.
 Qed.
 
+Lemma filter_true_id (l : list N) : filter (fun _ => true) l = l.
+Proof. induction l as [|x l IH]; cbn [filter]; [reflexivity|now rewrite IH]. Qed.
+Lemma filter_false_nil (l : list N) : filter (fun _ => false) l = [].
+Proof. induction l as [|x l IH]; cbn [filter]; [reflexivity|exact IH]. Qed.
+
+(* the component table, entry by entry (kept as separate small lemmas: the kernel checks
+   each in isolation) *)
+Lemma comp_0 : comp 0 = cap_promo_list p DW. Proof. reflexivity. Qed.
+Lemma comp_1 : comp 1 = cap_norm_list p DW. Proof. reflexivity. Qed.
+Lemma comp_2 : comp 2 = cap_promo_list p DE. Proof. reflexivity. Qed.
+Lemma comp_3 : comp 3 = cap_norm_list p DE. Proof. reflexivity. Qed.
+Lemma comp_4 : comp 4 = ep_comp DW. Proof. reflexivity. Qed.
+Lemma comp_5 : comp 5 = ep_comp DE. Proof. reflexivity. Qed.
+Lemma comp_6 : comp 6 = promo_push_list p (nq_prs prom_nq). Proof. reflexivity. Qed.
+Lemma comp_7 : comp 7 = to_list k0 (king_word p true k0). Proof. reflexivity. Qed.
+Lemma comp_8 : comp 8 = off_list p true. Proof. reflexivity. Qed.
+Lemma comp_9 : comp 9 = promo_push_list p (quiet_prs prom_nq). Proof. reflexivity. Qed.
+Lemma comp_10 : comp 10 = double_list p. Proof. reflexivity. Qed.
+Lemma comp_11 : comp 11 = single_list p. Proof. reflexivity. Qed.
+Lemma comp_12 : comp 12 = castle_list p. Proof. reflexivity. Qed.
+Lemma comp_13 : comp 13 = to_list k0 (king_word p false k0). Proof. reflexivity. Qed.
+Lemma comp_14 : comp 14 = off_list p false. Proof. reflexivity. Qed.
+
+Lemma keep_mask k : (k = 0 \/ k = 1 \/ k = 2 \/ k = 3 \/ k = 6 \/ k = 8 \/ k = 9 \/ k = 10 \/ k = 11 \/ k = 14)%nat ->
+  forall l, filter (comp_keep k) l = tmask evt l.
+Proof. intros H l. decompose [or] H; subst k; reflexivity. Qed.
+Lemma keep_ep k : (k = 4 \/ k = 5)%nat -> forall l, filter (comp_keep k) l = l.
+Proof. intros [-> | ->] l; apply filter_true_id. Qed.
+Lemma keep_king k : (k = 7 \/ k = 13)%nat -> forall l, filter (comp_keep k) l = filter (king_keep p) l.
+Proof. intros [-> | ->] l; reflexivity. Qed.
+Lemma keep_castle l : filter (comp_keep 12) l = [].
+Proof. apply filter_false_nil. Qed.
+
+Lemma seq_nq : seq 0 9 = [0; 1; 2; 3; 4; 5; 6; 7; 8]%nat. Proof. reflexivity. Qed.
+Lemma seq_q : seq 9 6 = [9; 10; 11; 12; 13; 14]%nat. Proof. reflexivity. Qed.
+
+Lemma ev_comp_nq : concat (map (fun k => filter (comp_keep k) (comp k)) (seq 0 9)) =
+  (tmask evt (cap_promo_list p DW) ++ tmask evt (cap_norm_list p DW)) ++
+  (tmask evt (cap_promo_list p DE) ++ tmask evt (cap_norm_list p DE)) ++
+  (ep_comp DW ++ ep_comp DE) ++ tmask evt (promo_push_list p (nq_prs prom_nq)) ++
+  filter (king_keep p) (to_list k0 (king_word p true k0)) ++ tmask evt (off_list p true).
+Proof.
+  rewrite seq_nq. cbn [map concat].
+  rewrite (keep_mask 0), (keep_mask 1), (keep_mask 2), (keep_mask 3), (keep_ep 4), (keep_ep 5), (keep_mask 6),
+          (keep_king 7), (keep_mask 8) by tauto.
+  rewrite comp_0, comp_1, comp_2, comp_3, comp_4, comp_5, comp_6, comp_7, comp_8.
+  rewrite app_nil_r, <- !app_assoc. reflexivity.
+Qed.
+
+Lemma ev_comp_q : concat (map (fun k => filter (comp_keep k) (comp k)) (seq 9 6)) =
+  (tmask evt (promo_push_list p (quiet_prs prom_nq)) ++ tmask evt (double_list p) ++ tmask evt (single_list p)) ++
+  filter (king_keep p) (to_list k0 (king_word p false k0)) ++ tmask evt (off_list p false).
+Proof.
+  rewrite seq_q. cbn [map concat].
+  rewrite (keep_mask 9), (keep_mask 10), (keep_mask 11), keep_castle, (keep_king 13), (keep_mask 14) by tauto.
+  rewrite comp_9, comp_10, comp_11, comp_13, comp_14.
+  cbn [app]. rewrite app_nil_r, <- !app_assoc. reflexivity.
+Qed.
+
+Lemma ev_nq_half :
+  (do a <- gen_pawn_moves prom_nq v 1 true evt; do k <- gen_king_moves v 1 true; do m <- gen_moves v 1 true evt;
+   Some (a ++ k ++ m)) = Some (concat (map (fun k => filter (comp_keep k) (comp k)) (seq 0 9))).
+Proof.
+  destruct king_facts as (K1 & K2 & K3). rewrite ev_comp_nq.
+  unfold gen_pawn_moves. replace (has_nq 1) with true by reflexivity. replace (has_q 1) with false by reflexivity.
+  unfold gen_pawn_nonquiet.
+  rewrite (ev_captures p Hlegal evt DW (or_introl eq_refl)), (ev_captures p Hlegal evt DE (or_intror eq_refl)). cbn [bind].
+  rewrite ep_part. cbn [bind]. rewrite (ev_promnq prom_nq p Hlegal evt). cbn [bind].
+  pose proof (ev_king p Hlegal true k0 K1 K2 K3) as Hkg. change (mode_of true) with 1 in Hkg. rewrite Hkg. cbn [bind].
+  pose proof (ev_moves p Hlegal evt true) as Hmg. change (mode_of true) with 1 in Hmg. rewrite Hmg. cbn [bind].
+  rewrite !app_nil_r, <- !app_assoc. reflexivity.
+Qed.
+
+Lemma ev_q_half :
+  (do a <- gen_pawn_moves prom_nq v 2 true evt; do k <- gen_king_moves v 2 true; do m <- gen_moves v 2 true evt;
+   Some (a ++ k ++ m)) = Some (concat (map (fun k => filter (comp_keep k) (comp k)) (seq 9 6))).
+Proof.
+  destruct king_facts as (K1 & K2 & K3). rewrite ev_comp_q.
+  unfold gen_pawn_moves. replace (has_nq 2) with false by reflexivity. replace (has_q 2) with true by reflexivity.
+  cbn [bind]. rewrite (ev_quiet prom_nq p Hlegal evt). cbn [bind].
+  pose proof (ev_king p Hlegal false k0 K1 K2 K3) as Hkg. change (mode_of false) with 2 in Hkg. rewrite Hkg. cbn [bind].
+  pose proof (ev_moves p Hlegal evt false) as Hmg. change (mode_of false) with 2 in Hmg. rewrite Hmg. cbn [bind app].
+  rewrite <- !app_assoc. reflexivity.
+Qed.
+
 Lemma ev_list mode : gen_pseudo prom_nq v mode true =
   Some (concat (map (fun k => filter (comp_keep k) (comp k)) (ks mode))).
 Proof.
-  destruct king_facts as (K1 & K2 & K3).
   unfold gen_pseudo, ks. rewrite (evasion_targets_some p Hlegal). cbn [bind].
-  assert (Htrue : forall l : list N, filter (fun _ => true) l = l).
-  { induction l as [|x l IH]; cbn [filter]; [reflexivity|now rewrite IH]. }
-  assert (Hfalse : forall l : list N, filter (fun _ => false) l = []).
-  { induction l as [|x l IH]; cbn [filter]; [reflexivity|exact IH]. }
-  assert (Hnq : (do a <- gen_pawn_moves prom_nq v 1 true evt; do k <- gen_king_moves v 1 true; do m <- gen_moves v 1 true evt;
-                 Some (a ++ k ++ m)) = Some (concat (map (fun k => filter (comp_keep k) (comp k)) (seq 0 9)))).
-  { unfold gen_pawn_moves. replace (has_nq 1) with true by reflexivity. replace (has_q 1) with false by reflexivity.
-    unfold gen_pawn_nonquiet.
-    rewrite (ev_captures p Hlegal evt DW (or_introl eq_refl)), (ev_captures p Hlegal evt DE (or_intror eq_refl)). cbn [bind].
-    rewrite ep_part. cbn [bind]. rewrite (ev_promnq prom_nq p Hlegal evt). cbn [bind].
-    pose proof (ev_king p Hlegal true k0 K1 K2 K3) as Hkg. change (mode_of true) with 1 in Hkg. rewrite Hkg. cbn [bind].
-    pose proof (ev_moves p Hlegal evt true) as Hmg. change (mode_of true) with 1 in Hmg. rewrite Hmg.
-    cbn [bind seq map concat comp comp_keep]. unfold tmask.
-    rewrite (Htrue (ep_comp DW)), (Htrue (ep_comp DE)), !app_nil_r, <- !app_assoc. reflexivity. }
-  assert (Hq : (do a <- gen_pawn_moves prom_nq v 2 true evt; do k <- gen_king_moves v 2 true;
-                do m <- gen_moves v 2 true evt; Some (a ++ k ++ m)) =
-               Some (concat (map (fun k => filter (comp_keep k) (comp k)) (seq 9 6)))).
-  { unfold gen_pawn_moves. replace (has_nq 2) with false by reflexivity. replace (has_q 2) with true by reflexivity.
-    cbn [bind]. rewrite (ev_quiet prom_nq p Hlegal evt). cbn [bind].
-    pose proof (ev_king p Hlegal false k0 K1 K2 K3) as Hkg. change (mode_of false) with 2 in Hkg. rewrite Hkg. cbn [bind].
-    pose proof (ev_moves p Hlegal evt false) as Hmg. change (mode_of false) with 2 in Hmg. rewrite Hmg.
-    cbn [bind seq map concat comp comp_keep app]. unfold tmask.
-    rewrite (Hfalse (castle_list p)), !app_nil_r, <- !app_assoc. cbn [app]. reflexivity. }
+  pose proof ev_nq_half as Hnq. pose proof ev_q_half as Hq.
   destruct (has_nq mode), (has_q mode); cbn [bind app]; rewrite ?Hnq; cbn [bind app]; rewrite ?Hq; cbn [bind app];
     rewrite ?map_app, ?concat_app, ?app_nil_r; reflexivity.
 Qed.
